@@ -39,7 +39,9 @@ def compile_lemmas(force=False):
     if p.returncode != 0 or "error" in out:
         return False, out[-1500:], dt
     bad_axioms = [l for l in out.splitlines() if "sorryAx" in l]
-    if bad_axioms or re.search(r"\bsorry\b", src):
+    code = re.sub(r"/-.*?-/", "", src, flags=re.S)
+    code = re.sub(r"--.*", "", code)
+    if bad_axioms or re.search(r"\bsorry\b", code):
         return False, "sorry / sorryAx found: " + "; ".join(bad_axioms)[:500], dt
     extra = set(re.findall(r"depends on axioms: \[([^\]]*)\]", out))
     allowed = {"propext", "Classical.choice", "Quot.sound"}
@@ -47,7 +49,7 @@ def compile_lemmas(force=False):
         for a in (x.strip() for x in group.split(",")):
             if a and a not in allowed:
                 return False, f"non-standard axiom {a}", dt
-    if re.search(r"^\s*axiom\s", src, re.M):
+    if re.search(r"^\s*axiom\s", code, re.M):
         return False, "the lemma file declares an axiom", dt
     with open(marker, "w") as f:
         f.write(f"compiled in {dt:.0f}s at {time.strftime('%Y-%m-%d %H:%M:%S')}\n")
